@@ -120,11 +120,24 @@ def _decide_bool_fn(fn, ref, res, role_key):
             raise NotComparisonOnly("terms %s" % sorted(set(p.terms) - set(rl)))
         return p.eval({t: v[rl[t]] for t in p.terms}, {})
 
+    itp_ast = [None]
+
     def run(v):
+        # general evaluation first (lets, early returns, match, helper calls); the hand-written evaluator below is the fallback
+        if itp_ast[0] is not None:
+            try:
+                got = Interp(itp_ast[0], fn.file).call(fn, [{"__ref": True, "start": v["vs"], "end": v["ve"], "value": ("f", 1.0)}, v["s"], v["e"]])
+                if isinstance(got, bool):
+                    return got
+            except NotPure:
+                pass
         try:
             return ev(fn.body, v)
         except _Ret as r:
             return r.val
+    from ..astq import CURRENT_AST as _cur
+    import btverif.astq as _aq
+    itp_ast[0] = _aq.CURRENT_AST
     rows = 0
     try:
         for ranks in weak_orders(4):
